@@ -150,8 +150,13 @@ func runProjectionWith(cs *projCase, origin interface{}) (projOut, error) {
 			for j, p := range k.Purposes {
 				ps[j] = p
 			}
-			if i%2 == 1 && len(ps) < 5 {
-				ps = append(ps, ps[0]) // a purpose listed twice names the relationship once
+			// a purpose listed twice names the relationship once - wherever the repetition stands: right after the first
+			// occurrence with the further purposes behind it (single keys and every second key), or at the end (the first
+			// of several keys)
+			if (i%2 == 1 || len(cs.C.Keys) == 1) && len(ps) < 5 {
+				ps = append([]interface{}{ps[0]}, ps...)
+			} else if len(ps) < 5 {
+				ps = append(ps, ps[0])
 			}
 			e["purposes"] = ps
 		}
